@@ -189,3 +189,9 @@ func (j *VerifJoin) Buffered() (match, specific int) {
 	}
 	return
 }
+
+// Delete hands a DeleteGroupMessage of parent src to the union node.
+func (u *VerifUnion) Delete(src int, d edge.DeleteGroupMessage) ([]edge.Message, error) {
+	err := u.n.Delete(src, d)
+	return u.out.take(), err
+}
